@@ -504,7 +504,7 @@ func TestVerif_FSM(t *testing.T) {
 	// Part 1: exhaustive small scope: all configs x all motion strings
 	// (one warm-up frame, then bits), fault-free gates.
 	cfgs := fsmSmallConfigs()
-	bits := int(c.N(11, 14))
+	bits := int(c.N(11, 16))
 	for _, cfg := range cfgs {
 		for m := 0; m < 1<<uint(bits); m++ {
 			myIdx := idx
@@ -529,7 +529,7 @@ func TestVerif_FSM(t *testing.T) {
 	// every motion string of length 7 x every placement of ONE disturbance
 	// (window closed / check fails / start fails / bad frame / reset) at
 	// every position.
-	gbits := int(c.N(7, 9))
+	gbits := int(c.N(7, 10))
 	for _, cfg := range cfgs {
 		for m := 0; m < 1<<uint(gbits); m++ {
 			for pos := 1; pos <= gbits; pos++ {
@@ -569,7 +569,7 @@ func TestVerif_FSM(t *testing.T) {
 	}
 
 	// Part 3: random long scripts with bad frames, resets and refused starts.
-	nrand := c.N(8000, 200000)
+	nrand := c.N(8000, 800000)
 	for s := int64(0); s < nrand; s++ {
 		myIdx := idx
 		idx++
